@@ -72,6 +72,8 @@ def run(rep, prog, tier):
         ev = S.SymEval(prog, kfn, lazy_scalars=True)
         try:
             v = ev.ev(rvalue)
+            if not (isinstance(v, S.Tup) and len(v.items) == 2):
+                raise S.Decline("the result is not a (scalar, vec3) pair this checker can evaluate")
             b = ev.record_of(v.items[1])
             ok = ev.prove_zero(sum(b.f.values()) - 1)
         except S.Decline as e:
